@@ -344,6 +344,16 @@ func (vfs *MemFS) Link(oldname, newname string) error {
 		return &os.LinkError{Op: op, Old: oldname, New: newname, Err: vfs.err.PermDenied}
 	}
 
+	// The new name may have been created since the directory was walked without a lock held.
+	if nParent.children[pi.Part()] != nil {
+		err := vfs.err.FileExists
+		if vfs.OSType() == avfs.OsWindows {
+			err = avfs.ErrWinAlreadyExists
+		}
+
+		return &os.LinkError{Op: op, Old: oldname, New: newname, Err: err}
+	}
+
 	c, ok := oChild.(*fileNode)
 	if !ok {
 		err := error(avfs.ErrOpNotPermitted)
@@ -967,6 +977,11 @@ func (vfs *MemFS) Symlink(oldname, newname string) error {
 
 	if !parent.checkPermission(avfs.OpenWrite, vfs.User()) {
 		return &os.LinkError{Op: op, Old: oldname, New: newname, Err: vfs.err.PermDenied}
+	}
+
+	// The new name may have been created since the directory was walked without a lock held.
+	if parent.children[pi.Part()] != nil {
+		return &os.LinkError{Op: op, Old: oldname, New: newname, Err: vfs.err.FileExists}
 	}
 
 	link := vfs.Clean(oldname)
